@@ -38,6 +38,7 @@ RULES = {
     "C13-T5": "sub-token order of the decimal numeric recognisers is that of 488.2 7.7.2.2: [sign] digits ['.' digits] [[ws] E [ws] [sign] digits]",
     "C13-T7": "program data that breaks off after a comma (`1,` / `'a',`) is distinguishable from absent program data: the unit must not be dispatched as if it had no parameters",
     "C13-T6": "parser level: scpiParser_parseProgramData / parseAllProgramData report exactly the number of bytes their recognisers consumed (white space included), on every path",
+    "C13-T8": "after a sub-recogniser that can fail with the cursor moved reported failure, the caller restores the cursor on every path before it measures the token",
     "C13-T4": "character classes of predicate helpers and of every advance guard equal the 488.2 classes (computed over all 256 byte values)",
 }
 
@@ -305,6 +306,62 @@ def show(s):
         out.append(ch(s[i]) if i == j else "%s-%s" % (ch(s[i]), ch(s[j])))
         i = j + 1
     return " ".join(out)
+
+
+def rule_t8(ck, prog, S, model):
+    """A sub-recogniser that can fail AFTER having moved the cursor (it ate the `E` and then found no digits) leaves the
+    cursor inside what is not part of the token.  On every path on which such a helper reported failure the caller puts
+    the cursor back to a position saved before the attempt - unconditionally - before it measures the token or returns."""
+    n = 0
+    for f in sorted(model.fns, key=lambda f_: (f_.relfile, f_.line)):
+        if not f.relfile.endswith("lexer.c") or not f.params or "_lex_state_t" not in f.params[0]["type"]["ct"]:
+            continue
+        base = f.params[0]["name"]
+        risky = [c for c in f.calls() if c.get("callee") and c["callee"] != f.name and model.writes_cursor(c) and
+                 prog.fn(c["callee"]) is not None and not LP.zero_unmoved(model, c["callee"]) and
+                 prog.fn(c["callee"]).ret.get("tk") == "int"]
+        if not risky:
+            continue
+        try:
+            sums = P.summarize(f, max_visits=2)
+        except P.TooManyPaths:
+            continue
+        for k, c in enumerate(K.ordinal_sites(risky)):
+            st = K.site(f, "restore-after-failed(%s)" % c["callee"], k)
+            bad = None
+            seen = False
+            for ps in sums:
+                idx = None
+                for i, ev in enumerate(ps.events):
+                    if ev[0] == "branch" and ev[1] is c and ev[2] is False:
+                        idx = i
+                if idx is None:
+                    continue
+                seen = True
+                restored = False
+                for ev in ps.events[idx + 1:]:
+                    if ev[0] == "store":
+                        t = C.store_target(ev[1])
+                        if t is not None and t.k == "MemberExpr":
+                            bm = LP.base_of_member(t)
+                            if bm and bm[0] == base and bm[1] == "pos" and ev[1].get("op") == "=":
+                                restored = True
+                # the whole recogniser failing (returns 0 / UNKNOWN) is T1's business: there the cursor goes back to the start
+                if not restored:
+                    bad = ps
+                    break
+            if not seen:
+                continue
+            n += 1
+            if bad is not None:
+                ck.violated("C13-T8", st, K.loc(f, c),
+                            "%s can return 0 after it moved the cursor; on a path on which it did, %s goes on without putting the cursor "
+                            "back: the bytes the failed attempt consumed become part of the token" % (c["callee"], f.name),
+                            {"path": bad.describe()[-6:]})
+            else:
+                ck.holds("C13-T8", st, K.loc(f, c), "cursor restored on every path on which %s failed" % c["callee"])
+    if n == 0:
+        ck.anchor_lost("C13-T8", "no caller of a sub-recogniser that can fail after moving the cursor")
 
 
 def rule_t4(ck, prog, S, model, only=None):
@@ -675,6 +732,7 @@ def run(ck, fb, tier):
         c01.rule_l3_l4(ck, prog, S, model, "C13-B3", "C13-B4")
         rule_t1_t2(ck, prog, S, model)
         rule_t4(ck, prog, S, model)
+        rule_t8(ck, prog, S, model)
         rule_t3(ck, prog, S)
         rule_t5(ck, prog)
         rule_t6(ck, prog)
